@@ -199,6 +199,11 @@ def gen_term(rng, cls_name, name, d, mode, inputs, representable):
     if cls_name == "Discrete":
         n = rng.randrange(1, 5)
         xs = sorted(number(rng, d, mode) for _ in range(n))
+        # open shoulders: the first / last abscissa may be infinite (an array with inf and without nan)
+        if n >= 2 and rng.random() < 0.12:
+            xs[0] = -math.inf
+        if n >= 2 and rng.random() < 0.12:
+            xs[-1] = math.inf
         ys = [number(rng, d, mode, 0.0, 1.0) for _ in range(n)]
         spec["values"] = [fhex(v) for pair in zip(xs, ys) for v in pair]
     else:
